@@ -190,11 +190,18 @@ func c16ts(c *Ctx) {
 		}
 		switch utc {
 		case 1:
-			lg.SetUTCMode(false)
-		case 2:
-			if r.Bool() {
-				lg.SetUTCMode(true)
+			if r.P(30) {
+				lg.SetUTCMode(true, false) // (several values: the last one is the mode, as in every setter of the package)
 			} else {
+				lg.SetUTCMode(false)
+			}
+		case 2:
+			switch r.Intn(3) {
+			case 0:
+				lg.SetUTCMode(true)
+			case 1:
+				lg.SetUTCMode(false, true)
+			default:
 				lg.SetUTCMode()
 			}
 		}
